@@ -296,6 +296,22 @@ def run(chk):
     lines = V.read_jsonl(opath)
     segs = V.split_cases(lines)
     byid = {c["id"]: c for c in cases}
+    # a case that got stuck or hit a harness problem (port taken, ...) is run once more on its own; only a
+    # second failure of the same case makes the check inconclusive
+    bad = [s[0]["id"] for s in segs if s[-1].get("why") in ("stuck", "harness", "driverpanic")]
+    if bad and not chk.replay:
+        rpath, ropath = os.path.join(chk.tmp, "retry.ndjson"), os.path.join(chk.tmp, "retry-out.ndjson")
+        with open(rpath, "w") as f:
+            for i in bad:
+                f.write(json.dumps(byid[i]) + "\n")
+        rc, o = V.run([drv, "-cases", rpath, "-out", ropath, "-par", "3", "-watchdog", "90"], timeout=1500)
+        if rc != 0:
+            raise V.Inconclusive("c19drv (retry) failed rc=%s: %s" % (rc, o[-3000:]))
+        again = {s[0]["id"]: s for s in V.split_cases(V.read_jsonl(ropath))}
+        chk.notes["cases_retried"] = {str(i): [s[-1].get("why") for s in segs if s[0]["id"] == i][0] + " -> " +
+                                      (again[i][-1].get("why") if i in again else "missing") for i in bad}
+        segs = [again.get(s[0]["id"], s) if s[0]["id"] in bad else s for s in segs]
+        lines = [ln for s in segs for ln in s]
     if len(segs) != len(cases) and not (chk.replay and cases[0].get("mode") == "closerace"):
         raise V.Inconclusive("c19drv wrote %d cases of %d" % (len(segs), len(cases)))
     if not chk.replay or cases[0].get("mode") == "closerace":
@@ -305,7 +321,7 @@ def run(chk):
         if rc != 0 or not os.path.exists(crpath):
             raise V.Inconclusive("c19drv -mode closerace failed rc=%s: %s" % (rc, o[-2000:]))
         cr = V.split_cases(V.read_jsonl(crpath))
-        byid[0] = {"id": 0, "mode": "closerace", "group": "1"}
+        byid[0] = {"id": 0, "mode": "closerace", "group": "cr"}
         if chk.replay:
             segs, lines = cr, []
         else:
@@ -329,12 +345,13 @@ def run(chk):
     chk.notes["cases"] = len(segs)
 
     # 4. verdicts by TLC
-    chunks = 3 if quick else 8
     t4 = time.time()
     folds = {}
     for g, gs in sorted(groups.items()):
-        folds[g] = (gs, pool.submit(V.fold_traces, work, "FDObs", "FDObs_%s.cfg" % g, gs, timeout=1500, chunks=chunks, max_rounds=8),
-                    pool.submit(V.fold_traces, work, "FDTrace", "FDTrace_%s.cfg" % g, gs, timeout=1500, chunks=chunks, max_rounds=8))
+        cfg = "1" if g == "cr" else g       # the close-race probe is folded on its own (three lines)
+        chunks = 1 if (quick or len(gs) < 200) else 4
+        folds[g] = (gs, pool.submit(V.fold_traces, work, "FDObs", "FDObs_%s.cfg" % cfg, gs, timeout=1500, chunks=chunks, max_rounds=8),
+                    pool.submit(V.fold_traces, work, "FDTrace", "FDTrace_%s.cfg" % cfg, gs, timeout=1500, chunks=chunks, max_rounds=8))
     for g, (gs, fobs, fmt) in folds.items():
         obs = fobs.result()
         chk.states += obs["states"]; chk.transitions += obs["transitions"]
@@ -356,6 +373,7 @@ def run(chk):
             ctx = ",".join(sorted({ln["e"] + (":" + ln.get("how", "") if ln["e"] == "end" else "") for ln in recent
                                    if ln["e"] in ("end", "netdown", "timeout", "monclose", "stall", "start")}))
             if part == "MonitorCrash":
+                seg = [{k: v for k, v in ln.items() if k not in ("what", "detail")} for ln in seg]   # stack text varies
                 chk.violation("C19:MonitorCrash:Close-during-accept",
                               "Monitor.Close() while connections arrive crashes the process inside the Monitor (nil listener in "
                               "ListenAndServe): monitor shutdown takes down every archetype of the process: %s" % ev.get("what", "")[:700],
